@@ -875,6 +875,13 @@ def run(ck):
                     % (harness_line(c), hb, vcands[:300] or "nothing", VERD.get(vcode, vcode), ltext, st))
             key = "C01/%s/%d/%s/%s" % (key_form, c["mode"], enc_kind, VERD.get(vcode, vcode))
             a16ops = [o for o in c["ops"] if o[0] == "M" and (o[3] == 2 or o[5] == 2) and o[8] != 0]
+            if not hasattr(ck, "_evex_sigs"):
+                sig_of = ck._sig_of = lambda r: tuple((d["kind"], d["cls"], d["slot"] == 6) for d in r["ops"] if not d["implicit"])
+                ck._evex_sigs = {}
+                for r in rows:
+                    if r.get("kind") == 3:
+                        ck._evex_sigs.setdefault(r["name"], set()).add(sig_of(r))
+            sig_of, evex_sigs = ck._sig_of, ck._evex_sigs
             evex_names = getattr(ck, "_evex_names", None)
             if evex_names is None:
                 evex_names = ck._evex_names = set(r["name"] for r in rows if r.get("kind") == 3)
@@ -889,7 +896,8 @@ def run(ck):
             elif st == "ok" and lprobs == [] and linsts == 1:
                 # llvm-mc reads the bytes exactly as the call: the database row is what disagrees
                 key = "C01/db-disagrees-with-asmjit-and-llvm/%s/%s" % (c["name"], enc_kind)
-            elif (c["opt"] & OPT["evex"]) and row is not None and row["kind"] == 1:
+            elif (c["opt"] & OPT["evex"]) and row is not None and row["kind"] == 1 and sig_of(row) not in evex_sigs.get(c["name"], ()):
+                # the operand form exists only VEX-encoded (vcmppd xmm,xmm,xmm,imm; VEX gathers with a vector mask, ...)
                 key = "C01/evex-option-on-vex-only-form/%s" % c["name"]
             elif c["deco"]["z"] and c["ops"] and c["ops"][0][0] == "M":
                 key = "C01/zeroing-with-memory-destination/%s" % c["name"]
